@@ -42,6 +42,18 @@ def gen(tier, rng):
                                                 src_lay=lay_with_guard(slay, guard) if slay else None,
                                                 dst_lay=lay_with_guard(dlay, guard) if dlay else {"k": "image"}, api=api, log=("digest",),
                                                 chk=("pipeline", "ret_ok", "outside", "srcsame") + (("memo_exact",) if j else ()), g=g))
+    if tier != "quick":
+        for i in range(1500):
+            kw = rz.random_resize_kw(rng)
+            g += 1
+            seed = rng.randint(1, 10 ** 9)
+            layouts = [("dyn", p) for p in DYN_PAIRS + EXTRA_DYN] + [("typed", p) for p in TYPED_PAIRS + EXTRA_TYPED]
+            rng.shuffle(layouts)
+            for j, (api, (slay, dlay)) in enumerate(layouts[:8]):
+                cases.append(rz.resize_case(kw["pt"], kw["sw"], kw["sh"], kw["dw"], kw["dh"], alg=kw["alg"], flt=kw["flt"], m=kw["m"], alpha=kw["alpha"],
+                                            box=kw["box"], Q=kw["Q"], cpu=kw["cpu"], src_c={"g": "rand", "seed": seed, "flo": 0.0, "fhi": 1.0},
+                                            src_lay=lay_with_guard(slay, 1) if slay else None, dst_lay=lay_with_guard(dlay, 1) if dlay else {"k": "image"},
+                                            api=api, log=("digest",), chk=("pipeline", "ret_ok", "outside", "srcsame") + (("memo_exact",) if j else ()), g=g))
     # alpha operations, mapping, conversion
     ops = [(op, pt, pt, None) for pt in ("U8x2", "U8x4", "U16x2", "U16x4", "F32x2", "F32x4") for op in ("mul", "div")]
     ops += [("map", "U8x3", "U16x3", ("srgb", "f")), ("map", "U16x4", "U8x4", ("gamma", "b")), ("map", "U8", "U8", ("srgb", "b")),
